@@ -436,6 +436,7 @@ JOBS["C29"] = [FromInstant(), ToInstant()]
 JOBS_BY_NAME = {}
 
 import mir_jobs_engine  # noqa: E402,F401  (registers the radix-engine jobs in JOBS)
+import mir_jobs_more    # noqa: E402,F401  (registers more radix-common jobs)
 
 
 def _index():
